@@ -67,7 +67,10 @@ def gen_unit(rng):
         f = rng.choice(["(round .x)", "(floor .x)", "(ceil .x)", "(abs .x)", "(+ .x 0)", "(* .x 1)", "(- (- .x))", "(/ .x 1)", "(% .x 100)", "(round (/ .x 2))",
                         "(size (range (% (abs (round .x)) 50)))", "(sum (push [] .x))", "(as_number .x)", "(default .nothing (floor .x))",
                         # zero reached from both sides
-                        "(% .x 2)", "(% .x 1)", "(% (round .x) 5)", "(- .x .x)", "(% .x -2)"])
+                        "(% .x 2)", "(% .x 1)", "(% (round .x) 5)", "(- .x .x)", "(% .x -2)",
+                        # one total reached along different ways (integers of one sign, mixed signs, halves)
+                        "(sum (push [] .x -3 3))", "(sum (push [] (/ .x 2) (/ .x 2)))", "(sum (push [] 1 (- .x 1)))", "(- (+ .x 5) 5)",
+                        "(sum (push [] (abs .x) (- (abs .x)) 2))", "(- 5 (- 5 .x))", "(* (/ .x 4) 4)"])
         items = ['{"x":%s,"z":%d}' % (rng.choice(nums), rng.randint(0, 1000)) for _ in range(n)]
         return {"input": rng.choice(["\n", " "]).join(items).encode("utf-8"), "args": ["--select", f + "=x"], "mode": mode}
     items = []
